@@ -36,7 +36,19 @@ def _c03_extra(results):
 CFG = {
     "module": "Swat4.Properties.C03",
     "theorems": [
+        "Swat4.C03.facts_ok",
+        "Swat4.C03.required_in_scope",
+        "Swat4.C03.parse_total",
+        "Swat4.C03.loop_terminates",
         "Swat4.C03.malformed_is_blank",
+        "Swat4.C03.wellformed_is_used",
+        "Swat4.C03.match_sat",
+        "Swat4.C03.query_match_sat",
+        "Swat4.C03.selection_eq_filter",
+        "Swat4.C03.boundary_inclusive",
+        "Swat4.C03.rest_flags",
+        "Swat4.C03.rest_listing",
+        "Swat4.C03.browser_listing_malformed",
     ],
     "shards": (1, 16),
     "nontrivial": _c03_nontrivial,
